@@ -287,6 +287,13 @@ impl SenderCreditConsumer {
         self.0.consume(count).await
     }
 
+    /// `TryConsume::try_consume`: takes the credit if it is there, never waits
+    #[cfg(feature = "transaction")]
+    pub fn try_consume(&self, count: u32) -> Option<[u8; 4]> {
+        use crate::util::TryConsume;
+        self.0.try_consume(count).ok()
+    }
+
     /// (delivery-count, link-credit, drain)
     pub fn snapshot(&self) -> (u32, u32, bool) {
         let g = self.0.state().lock.read();
